@@ -5,6 +5,13 @@
 //!   (17 3 ty k mean cov source (ns nf))  -> ( M T )   (see coq/theories/Run/RunC17.v), k >= 1
 //!   (17 5 ty mean cov source (ns nf))    -> ( M T )   the same with k = 0 (known finding K1)
 //!   (17 4 ty data)                       -> outcome (mean variance)
+//! FLOAT tier (fty 0 = f64, 1 = f32; numbers (m e) = the decimal m * 10^e rounded to the type):
+//!   (17 6 fty mean var (x ..))           -> (closed-form symmetric maximal-at-mean forms) flags
+//!   (17 7 fty mean var k source)         -> (present consumed values-ok)
+//!   (17 8 fty k mean cov source)         -> (present consumed values-ok)   k >= 1
+//! Floats are never printed: presence and consumption are compared with the model, the VALUES
+//! are compared here with the real-number closed forms of C17_pdf_real / C17_draw_values_real /
+//! C17_mv_draw_real evaluated in f64, within a rounding-error budget.
 use crate::guarded;
 use crate::num::{dec_list, enc_list, Enc};
 use crate::sx::*;
@@ -37,11 +44,40 @@ impl<T> Iterator for Counting<T> {
     }
 }
 
+/// ITERATOR SHAPES at the hand-off (crate::shapes, notes/ITERS.md): the source of a draw handed
+/// over as a lower-bound-0 / custom-hint / not-fused / boxed / by-ref / lying-hint iterator over the
+/// same numbers must give the canonical result and consume the same number of items (counted
+/// by an `inspect` between the shape and the crate).  `$call` uses `$s : &mut impl Iterator`.
+/// Code = base + shape.  Draws never need the hint, so the lying shapes are compared as well.
+macro_rules! shaped_sources {
+    ($src:expr, $key:expr, $base:expr, $canon:expr, $taken:expr, |$s:ident| $call:expr) => {
+        for shape in crate::shapes::plan($key, &crate::shapes::LYING) {
+            let count = std::cell::Cell::new(0usize);
+            let r = crate::shapes::with_shape!(shape, $src.clone(), |it| {
+                let mut counted = it.inspect(|_| count.set(count.get() + 1));
+                let $s = &mut counted;
+                $call
+            });
+            if r != $canon || count.get() != $taken {
+                return inconsistent($base + shape as i64);
+            }
+        }
+    };
+}
+
 pub fn run(args: &[Sx]) -> Sx {
     if args.len() < 2 {
         return bad_case();
     }
     let (Some(op), Some(ty)) = (args[0].i64(), args[1].i64()) else { return bad_case() };
+    if (6..=8).contains(&op) {
+        // FLOAT tier (ty 0 = f64, 1 = f32): see `float_tier` at the end of this file
+        return match ty {
+            0 => float_tier::<f64>(op, &args[2..]),
+            1 => float_tier::<f32>(op, &args[2..]),
+            _ => bad_case(),
+        };
+    }
     with_ty!(ty, go(op, &args[2..]))
 }
 
@@ -105,6 +141,7 @@ where
             if r2 != r || plain.count() != src.len() - taken {
                 return inconsistent(202);
             }
+            shaped_sources!(src, crate::shapes::key_of(args), 17200, r, taken, |s| g.draw(s, k));
             l(vec![opt(r.map(|v| enc_list(&v))), z(taken)])
         }
         (3, 5) => {
@@ -135,6 +172,23 @@ where
         }
         (4, 1) => {
             let Some(data) = dec_list::<T>(&args[0]) else { return bad_case() };
+            {
+                // iterator shapes: `approximating` collects its argument, so a lying LOWER bound of
+                // usize::MAX (shapes 12 / 15) may panic with "capacity overflow" instead (code 17480 + shape
+                // if it gives anything else); every other shape must give the canonical outcome (17400 + shape)
+                let pair = |g: Option<Gaussian<T>>| g.map(|g| (g.mean, g.variance));
+                let canon = pair(guarded(|| Gaussian::<T>::approximating(data.iter().cloned())));
+                for shape in crate::shapes::plan(crate::shapes::key_of(args), &crate::shapes::LYING) {
+                    let r = pair(crate::shapes::with_shape!(shape, data.clone(), |it| guarded(|| Gaussian::<T>::approximating(it))));
+                    if crate::shapes::lower_is_max(shape) {
+                        if r.is_some() && r != canon {
+                            return inconsistent(17480 + shape as i64);
+                        }
+                    } else if r != canon {
+                        return inconsistent(17400 + shape as i64);
+                    }
+                }
+            }
             match guarded(|| Gaussian::<T>::approximating(data.iter().cloned())) {
                 Some(g) => {
                     let g2 = guarded(|| Gaussian::<T>::approximating(data.clone().into_iter()));
@@ -165,6 +219,7 @@ where
     let mean_flat: Vec<T> = mean.iter().flatten().cloned().collect();
     let cov_flat: Vec<T> = cov.iter().flatten().cloned().collect();
     let (cr, cc) = (cov.len(), cov[0].len());
+    let shape_key = crate::shapes::key_of(&[z(k), enc_list(&src), enc_list(&cov_flat), z(ns * 16 + nf)]);
 
     // ---- matrix variant
     let mut matrix_draw: Option<(Option<Matrix<T>>, usize)> = None;
@@ -177,6 +232,7 @@ where
             let mut source = Counting::new(src.clone());
             let r = guarded(|| g.draw(&mut source, k));
             let taken = source.taken;
+            shaped_sources!(src, shape_key, 17300, r, taken, |s| guarded(|| g.draw(s, k)));
             match r {
                 None => ok(panicked()),
                 Some(r) => {
@@ -227,6 +283,7 @@ where
             let mut source = Counting::new(src.clone());
             let r = guarded(|| g.draw(&mut source, k, dim(ns), dim(nf)));
             let taken = source.taken;
+            shaped_sources!(src, shape_key, 17340, r, taken, |s| guarded(|| g.draw(s, k, dim(ns), dim(nf))));
             // the mean / covariance tensors' OWN dimension names are not observable: every
             // renaming, including collisions with the draw's `samples` / `features` names, must
             // give the same outcome (same numbers, same shape, same consumption, same panic)
@@ -312,4 +369,312 @@ where
         }
     };
     l(vec![m_res, t_res])
+}
+
+// ------------------------------------------------------------------------------------------
+// FLOAT tier.  The exact tiers above compare the algorithm's SKELETON over fields where sqrt /
+// exp / ln / cos / sin / pi are fixed polynomials; a change that keeps the skeleton's value on
+// those stand-ins by accident, a float literal in place of `T::pi()`, a different libm routine
+// or an f32-only path is visible only with the real functions.  Observables are rounding-robust:
+// every value is compared with the closed form over the reals (the right-hand sides of
+// C17_pdf_real, C17_draw_values_real, C17_mv_draw_real) evaluated in f64 on the SAME rounded
+// inputs, within an explicit error budget in units of the type's unit roundoff.
+// ------------------------------------------------------------------------------------------
+
+trait Fl: Real + Copy + PartialEq + PartialOrd + std::fmt::Debug + std::ops::Neg<Output = Self> + std::ops::Sub<Output = Self> {
+    /// unit roundoff (half the distance between 1 and the next number)
+    const U: f64;
+    /// results whose closed form is below this compare as "both below" (gradual underflow has
+    /// no relative precision)
+    const TINY: f64;
+    fn parse(m: i64, e: i64) -> Option<Self>;
+    fn f(self) -> f64;
+    fn bits(self) -> u64;
+}
+impl Fl for f64 {
+    const U: f64 = 1.1102230246251565e-16;
+    const TINY: f64 = 1e-300;
+    fn parse(m: i64, e: i64) -> Option<f64> {
+        format!("{}e{}", m, e).parse::<f64>().ok().filter(|v| v.is_finite())
+    }
+    fn f(self) -> f64 {
+        self
+    }
+    fn bits(self) -> u64 {
+        self.to_bits()
+    }
+}
+impl Fl for f32 {
+    const U: f64 = 5.960464477539063e-8;
+    const TINY: f64 = 1e-36;
+    fn parse(m: i64, e: i64) -> Option<f32> {
+        format!("{}e{}", m, e).parse::<f32>().ok().filter(|v| v.is_finite())
+    }
+    fn f(self) -> f64 {
+        self as f64
+    }
+    fn bits(self) -> u64 {
+        self.to_bits() as u64
+    }
+}
+
+fn dec_me<T: Fl>(s: &Sx) -> Option<T> {
+    let p = s.list()?;
+    if p.len() != 2 {
+        return None;
+    }
+    T::parse(p[0].i64()?, p[1].i64()?)
+}
+fn dec_me_list<T: Fl>(s: &Sx) -> Option<Vec<T>> {
+    s.list()?.iter().map(dec_me::<T>).collect()
+}
+fn me_mantissa(s: &Sx) -> Option<i64> {
+    s.list()?.first()?.i64()
+}
+
+/// `got` against the closed-form value `want` with the absolute error budget `budget`; values
+/// that are not finite must be not finite on both sides in the same way
+fn close(got: f64, want: f64, budget: f64) -> bool {
+    if want.is_nan() {
+        return got.is_nan();
+    }
+    if want.is_infinite() {
+        return got == want;
+    }
+    (got - want).abs() <= budget
+}
+
+/// the Box-Muller pair of the source numbers (u, v) over the reals, in f64:
+/// (r, r cos(2 pi v), r sin(2 pi v)) with r = sqrt(-2 ln u)
+fn box_muller_f64(u: f64, v: f64) -> (f64, f64, f64) {
+    let r = (-2.0 * u.ln()).sqrt();
+    let a = 2.0 * std::f64::consts::PI * v;
+    (r, r * a.cos(), r * a.sin())
+}
+
+fn float_tier<T>(op: i64, args: &[Sx]) -> Sx
+where
+    T: Fl,
+    for<'a> &'a T: RealRef<T>,
+{
+    match (op, args.len()) {
+        (6, 3) => {
+            let (Some(mean), Some(var), Some(xs)) = (dec_me::<T>(&args[0]), dec_me::<T>(&args[1]), dec_me_list::<T>(&args[2]))
+            else {
+                return bad_case();
+            };
+            if !(me_mantissa(&args[1]).unwrap_or(0) > 0) || !(var.f() > 0.0) {
+                return bad_case();
+            }
+            float_pdf::<T>(mean, var, &xs)
+        }
+        (7, 4) => {
+            let (Some(mean), Some(var), Some(k), Some(src)) =
+                (dec_me::<T>(&args[0]), dec_me::<T>(&args[1]), args[2].usize(), dec_me_list::<T>(&args[3]))
+            else {
+                return bad_case();
+            };
+            if !(me_mantissa(&args[1]).unwrap_or(0) > 0) || !(var.f() > 0.0) || k > 1 << 20 {
+                return bad_case();
+            }
+            if args[3].list().is_some_and(|v| v.iter().any(|x| me_mantissa(x).unwrap_or(-1) < 0)) {
+                return bad_case();
+            }
+            float_draw::<T>(mean, var, k, src)
+        }
+        (8, 4) => {
+            let (Some(k), Some(mean), Some(cov_rows), Some(src)) =
+                (args[0].usize(), dec_me_list::<T>(&args[1]), args[2].list(), dec_me_list::<T>(&args[3]))
+            else {
+                return bad_case();
+            };
+            let Some(cov) = cov_rows.iter().map(dec_me_list::<T>).collect::<Option<Vec<Vec<T>>>>() else {
+                return bad_case();
+            };
+            let n = mean.len();
+            if k == 0 || k > 1 << 16 || n == 0 || cov.len() != n || cov.iter().any(|r| r.len() != n) {
+                return bad_case();
+            }
+            if args[3].list().is_some_and(|v| v.iter().any(|x| me_mantissa(x).unwrap_or(-1) < 0)) {
+                return bad_case();
+            }
+            float_mv::<T>(k, mean, cov, src)
+        }
+        _ => bad_case(),
+    }
+}
+
+/// op 6.  Flags: (1) every density within the budget of 1/sqrt(2 pi var) exp(-(x-mean)^2/(2 var));
+/// (2) symmetric about the mean, bit for bit, wherever the mirror point is representable (x - mean
+/// and mirror - mean are exact negations in T); (3) no density exceeds the density at the mean,
+/// and that one is 1/sqrt(2 pi var) within the budget; (4) `map` and the struct-literal form
+/// return the same bits.
+fn float_pdf<T>(mean: T, var: T, xs: &[T]) -> Sx
+where
+    T: Fl,
+    for<'a> &'a T: RealRef<T>,
+{
+    let g = Gaussian::<T>::new(mean, var);
+    let (m, v) = (mean.f(), var.f());
+    let norm = 1.0 / (2.0 * std::f64::consts::PI * v).sqrt();
+    let at_mean = g.probability(&mean);
+    let (mut closed, mut symmetric, mut maximal, mut forms) = (true, true, true, true);
+    if !close(at_mean.f(), norm, 8.0 * T::U * norm) {
+        maximal = false;
+    }
+    for x in xs {
+        let p = g.probability(x);
+        let d = x.f() - m;
+        let y = -(d * d) / (2.0 * v);
+        let want = norm * y.exp();
+        // error budget in unit roundoffs U: the exponent y = -1/2 ((x - mean) / sd)^2 carries
+        // 0.5 (difference) + 1 (sd, quotient) doubled by the square + 2 (pow) = 5 U relative,
+        // which exp turns into 5 |y| U; exp itself 2, the normaliser 1 / (sd sqrt(2 pi)) 2.5, the
+        // product 0.5: (5 + 5 |y|) U in all; 8 (1 + |y|) U leaves a factor 1.6
+        if want < T::TINY {
+            if !(p.f() >= 0.0 && p.f() <= 2.0 * T::TINY) {
+                closed = false;
+            }
+        } else if !close(p.f(), want, 8.0 * (1.0 + y.abs()) * T::U * want) {
+            closed = false;
+        }
+        if !(p.f() <= at_mean.f()) || !(p.f() >= 0.0) {
+            maximal = false;
+        }
+        // the mirror point 2 mean - x, when representable
+        let mirror = mean - (*x - mean);
+        if (mirror - mean) == -(*x - mean) && g.probability(&mirror).bits() != p.bits() {
+            symmetric = false;
+        }
+        #[allow(deprecated)]
+        let p2 = g.map(x);
+        let g2 = Gaussian::<T> { mean, variance: var };
+        if p2.bits() != p.bits() || g2.probability(x).bits() != p.bits() {
+            forms = false;
+        }
+    }
+    l(vec![boolean(closed), boolean(symmetric), boolean(maximal), boolean(forms)])
+}
+
+/// op 7.  (present consumed values-ok): sample 2i is mean + sqrt(var) sqrt(-2 ln u) cos(2 pi v),
+/// sample 2i+1 the same with sin, (u, v) the i-th source pair.
+fn float_draw<T>(mean: T, var: T, k: usize, src: Vec<T>) -> Sx
+where
+    T: Fl,
+    for<'a> &'a T: RealRef<T>,
+{
+    let g = Gaussian::<T>::new(mean, var);
+    let mut source = Counting::new(src.clone());
+    let r = g.draw(&mut source, k);
+    let taken = source.taken;
+    let rest: Vec<T> = source.collect();
+    if rest.iter().map(|x| x.bits()).collect::<Vec<_>>() != src[taken..].iter().map(|x| x.bits()).collect::<Vec<_>>() {
+        return inconsistent(701);
+    }
+    let mut values_ok = true;
+    if let Some(samples) = &r {
+        if samples.len() != k {
+            return inconsistent(702);
+        }
+        let sd = var.f().sqrt();
+        for (i, s) in samples.iter().enumerate() {
+            let (u, v) = (src[2 * (i / 2)].f(), src[2 * (i / 2) + 1].f());
+            let (rad, zc, zs) = box_muller_f64(u, v);
+            let want = (if i % 2 == 0 { zc } else { zs }) * sd + mean.f();
+            // budget in unit roundoffs U: the angle 2 pi v (the type's own pi 0.5, the product 0.5) is
+            // off by <= 1 U |angle| <= 6.3 U, so cos / sin by <= 8.3 U absolutely (incl. their own 2);
+            // the radius sqrt(-2 ln u) 1.5 relative, the products and sd 2: <= 12 U sd r; the final
+            // sum 0.5 U (|mean| + sd r).  24 U sd r + 4 U |mean| leaves a factor 2
+            let budget = T::U * (24.0 * sd * rad + 4.0 * mean.f().abs()) + f64::MIN_POSITIVE;
+            if !close(s.f(), want, budget) {
+                values_ok = false;
+            }
+        }
+    }
+    l(vec![boolean(r.is_some()), z(taken), boolean(values_ok)])
+}
+
+/// op 8.  (present consumed values-ok) of the TENSOR variant with names (d0, d1); the matrix
+/// variant must return the same bits (801-803); a present draw must come with a factor L from the
+/// crate's own Cholesky routine and row r = mean + L z_r, z_r the Box-Muller images of the r-th
+/// block of 2 ceil(n / 2) source numbers (closed form in f64, L as the crate computed it).
+fn float_mv<T>(k: usize, mean: Vec<T>, cov: Vec<Vec<T>>, src: Vec<T>) -> Sx
+where
+    T: Fl,
+    for<'a> &'a T: RealRef<T>,
+{
+    let n = mean.len();
+    let cov_flat: Vec<T> = cov.iter().flatten().cloned().collect();
+    let cov_m = Matrix::from(cov.clone());
+    let mean_m = Matrix::column(mean.clone());
+    let gm = MultivariateGaussian::<T>::new(mean_m, cov_m.clone());
+    let mut source_m = Counting::new(src.clone());
+    let rm = gm.draw(&mut source_m, k);
+    let Ok(gt) = MultivariateGaussianTensor::<T>::new(
+        Tensor::from([(dim(7), n)], mean.clone()),
+        Tensor::from([(dim(8), n), (dim(9), n)], cov_flat),
+    ) else {
+        return inconsistent(800);
+    };
+    let mut source_t = Counting::new(src.clone());
+    let rt = gt.draw(&mut source_t, k, dim(0), dim(1));
+    if source_m.taken != source_t.taken {
+        return inconsistent(801);
+    }
+    match (&rm, &rt) {
+        (None, None) => {}
+        (Some(a), Some(b)) => {
+            if a.row_major_iter().map(|x| x.bits()).collect::<Vec<_>>() != b.iter().map(|x| x.bits()).collect::<Vec<_>>()
+                || b.shape() != [(dim(0), k), (dim(1), n)]
+                || (a.rows(), a.columns()) != (k, n)
+            {
+                return inconsistent(802);
+            }
+        }
+        _ => return inconsistent(803),
+    }
+    let taken = source_t.taken;
+    let factor = easy_ml::linear_algebra::cholesky_decomposition::<T>(&cov_m);
+    let mut values_ok = true;
+    match (&rt, &factor) {
+        (Some(_), None) => return inconsistent(804),
+        (Some(t), Some(lower)) => {
+            let w = 2 * ((n + 1) / 2);
+            let data: Vec<T> = t.iter().collect();
+            for r in 0..k {
+                let mut zs = vec![(0.0, 0.0); n];
+                for j in 0..n {
+                    let (u, v) = (src[r * w + 2 * (j / 2)].f(), src[r * w + 2 * (j / 2) + 1].f());
+                    let (rad, zc, zsn) = box_muller_f64(u, v);
+                    zs[j] = (if j % 2 == 0 { zc } else { zsn }, rad);
+                }
+                for i in 0..n {
+                    let mut want = mean[i].f();
+                    let mut scale = 0.0;
+                    for j in 0..n {
+                        let lij = lower.get(i, j).f();
+                        want += lij * zs[j].0;
+                        scale += lij.abs() * zs[j].1;
+                    }
+                    // as for `float_draw` (sd = 1, mean = 0 for every z_j) plus the n-term inner product
+                    let budget = T::U * ((24.0 + 2.0 * n as f64) * scale + 4.0 * mean[i].f().abs());
+                    if !close(data[r * n + i].f(), want, budget + f64::MIN_POSITIVE) {
+                        values_ok = false;
+                    }
+                }
+            }
+        }
+        // absent although a factor exists: only when the source ran dry (the model decides)
+        (None, Some(_)) => {
+            if taken == 0 && src.len() >= k * 2 * ((n + 1) / 2) {
+                return inconsistent(805);
+            }
+        }
+        (None, None) => {
+            if taken != 0 {
+                return inconsistent(806);
+            }
+        }
+    }
+    l(vec![boolean(rt.is_some()), z(taken), boolean(values_ok)])
 }
